@@ -241,12 +241,12 @@ func groupRace(ctx context.Context, chain []ct.ASN1Cert, asPreChain bool,
 				return
 			case <-timeoutchan:
 			}
-			simYield("race.groupComplete", group.Name, logURL, chain)
+			simYield(subCtx, "race.groupComplete", group.Name, logURL, chain)
 			if state.groupComplete(group.Name) {
 				cancel()
 				return
 			}
-			simYield("race.request", group.Name, logURL, chain)
+			simYield(subCtx, "race.request", group.Name, logURL, chain)
 			if firstRequested := state.request(logURL, cancel); !firstRequested {
 				// Another group is asking (or has asked) this Log.
 				state.wait(subCtx, logURL)
@@ -254,7 +254,7 @@ func groupRace(ctx context.Context, chain []ct.ASN1Cert, asPreChain bool,
 			}
 			sct, err := submitter.SubmitToLog(subCtx, logURL, chain, asPreChain)
 			// TODO(Mercurrent): verify SCT
-			simYield("race.setResult", group.Name, logURL, chain)
+			simYield(subCtx, "race.setResult", group.Name, logURL, chain)
 			state.setResult(logURL, sct, err)
 		}(i, logURL)
 	}
